@@ -47,3 +47,12 @@ PROPS['C14'] = dict(
     assumptions=[],
     explanation="",
 )
+
+PROPS['C15'] = dict(
+    units=list(iodrawer.TRACE_UNITS),
+    extra=[iodrawer.trace_grammar_bounded],
+    level='proof',
+    min_obligations=100,
+    assumptions=[],
+    explanation="",
+)
